@@ -244,6 +244,26 @@ SEEDS.update({
            "DoNothing / OnDelay policy, a truncate on queue a deletes the file holding queue b's creation while b's records are still buffered, no empty queue, crash"),
 })
 
+# sixth (mini) round: eight sub-agents (C01 C04 C05 C06 C08 C11 C15 C17), 25-minute budget, one change each
+SEEDS.update({
+ "C01-9": ("RecordReader::go_next without the within_record flag: orphan Middle/Last frames are assembled into a record (same family as C07-7)",
+           "a record straddling two wal files, truncated, head file GC'ed, clean restart, and the payload bytes at the frame split spell a RecordPosition entry: a deleted queue reappears"),
+ "C04-9": ("positions of empty queues are recorded at most once per current WAL file (new field remembers the file)",
+           ">= 3 files, a GC pass while the writer is in file F, then a second pass still in F triggered by emptying a queue whose records all live in the head file, then a restart: the queue is gone"),
+ "C05-9": ("MemQueue::range resolves its start bound with position - start_position when the retained records have no hole",
+           "a hole-free queue whose start_position is below its first record (emptied queue + explicit future position, or truncate inside a hole) and a range with a bounded start: records dropped"),
+ "C06-9": ("delete_queue runs the GC pass only if the deleted queue still held records",
+           "everything truncated past the current file, a create_queue entry crossing the file boundary, then delete_queue of an EMPTY queue: the unreferenced file stays"),
+ "C08-9": ("Header::check accepts a stored checksum of 0 without hashing",
+           "in-place damage zeroing exactly the 4 checksum bytes of a frame header plus a second alteration in that frame's payload that still deserializes"),
+ "C11-9": ("RecordReader::go_next turns an I/O error into 'no more record' when no multi-frame record is being assembled",
+           "a record ending 0..6 bytes before a block end (padded block) with the log continuing in the next block, fault at exactly that block read: open returns Ok with a partial log"),
+ "C15-9": ("write_record adds the constant BLOCK - HEADER (payload capacity) for a Middle frame instead of what write_frame returns",
+           "an entry with >= 1 Middle frame (>= ~64 KiB, or 32..64 KiB starting late in its block): 7 bytes too few per Middle frame"),
+ "C17-9": ("create_file preallocates under a hidden temporary name .wal-<N>.tmp (create+truncate) and renames it into place",
+           "a foreign file named exactly .wal-<next number>.tmp present during a roll-over is destroyed; the library creates a name that is not wal-<20 digits>"),
+})
+
 def parse_matrix(name):
     path = f"/tmp/seedmatrix_final/{name}.log"
     if not os.path.exists(path):
